@@ -165,12 +165,21 @@ func runCheck(id, tier string, seed int, propose, verbose bool) int {
 	// functions under contract for this property
 	suffix := "zz_verif_" + strings.ToLower(id) + ".go"
 	var funcs []string
+	seenFn := map[string]bool{}
 	for name, c := range P.Contracts {
-		if filepath.Base(c.File) == suffix {
-			funcs = append(funcs, name)
+		for _, f := range append([]string{c.File}, c.Files...) {
+			if filepath.Base(f) == suffix && !seenFn[name] {
+				seenFn[name] = true
+				funcs = append(funcs, name)
+			}
 		}
 	}
-	funcs = append(funcs, cfg.Functions...)
+	for _, f := range cfg.Functions {
+		if !seenFn[f] {
+			seenFn[f] = true
+			funcs = append(funcs, f)
+		}
+	}
 	sort.Strings(funcs)
 
 	var ledger []LedgerEntry
@@ -254,6 +263,9 @@ func runCheck(id, tier string, seed int, propose, verbose bool) int {
 					vacuous = append(vacuous, o.Name)
 				}
 				continue
+			}
+			if foreignLabel(o.Name, id) {
+				continue // clause labelled for another property (shared function)
 			}
 			results[o.Name] = o
 			all = append(all, o)
@@ -607,4 +619,20 @@ func (P *Program) LoadTrusted() error {
 		}
 	}
 	return nil
+}
+
+// foreignLabel: obligation labels may start with a property id ("C15_tax"); such an obligation
+// belongs to that property only. Unprefixed labels belong to every property listing the function.
+func foreignLabel(name, id string) bool {
+	i := strings.LastIndex(name, "#")
+	if i < 0 {
+		return false
+	}
+	rest := name[i+1:]
+	for _, part := range strings.Split(rest, ".") {
+		if len(part) >= 4 && part[0] == 'C' && part[1] >= '0' && part[1] <= '9' && part[2] >= '0' && part[2] <= '9' && part[3] == '_' {
+			return !strings.EqualFold(part[:3], id)
+		}
+	}
+	return false
 }
